@@ -1,22 +1,24 @@
 #!/usr/bin/env python3
 """Re-run every check against every seeded change (scratch copies; /repo untouched) and refresh seeded/*/meta.json
-(`verified.caught_by`) and seeded/SUMMARY.md.   tools/seed_recheck.py [name-prefix ...]"""
+(`verified.caught_by`) and seeded/SUMMARY.md.   tools/seed_recheck.py [-j N] [name-prefix ...]"""
 import glob, json, os, subprocess, sys, tempfile, shutil, re
-only = sys.argv[1:]
-rows = []
-for d in sorted(glob.glob("/verif/seeded/C*-*")):
+from concurrent.futures import ThreadPoolExecutor
+args = sys.argv[1:]
+jobs = 5
+if args and args[0] == "-j":
+    jobs = int(args[1]); args = args[2:]
+only = args
+
+
+def one(d):
     name = os.path.basename(d)
-    meta = json.load(open(os.path.join(d, "meta.json")))
-    if only and not any(name.startswith(o) for o in only):
-        rows.append((name, meta.get("summary", "")[:160].replace("|", "/"), meta.get("verified", {}).get("caught_by", {}), True))
-        continue
     t = tempfile.mkdtemp(prefix="verif-seed-")
     applies = True
+    caught = {}
     try:
         subprocess.run(["rsync", "-a", "--exclude", "target", "--exclude", ".git", "/repo/", t + "/"], check=True)
         r = subprocess.run(["patch", "-s", "-p1", "-d", t, "-i", os.path.join(d, "patch.diff")], capture_output=True, text=True)
         applies = r.returncode == 0
-        caught = {}
         if applies:
             r = subprocess.run(["/verif/check", "all"], env=dict(os.environ, VERIF_REPO=t), capture_output=True, text=True)
             last = []
@@ -31,13 +33,27 @@ for d in sorted(glob.glob("/verif/seeded/C*-*")):
                     caught.setdefault("ERROR", []).append(line[:200])
     finally:
         shutil.rmtree(t, ignore_errors=True)
-    meta.setdefault("verified", {})["caught_by"] = caught
-    meta["verified"]["patch_applies_to_current_repo"] = applies
-    json.dump(meta, open(os.path.join(d, "meta.json"), "w"), indent=1, ensure_ascii=False)
-    rows.append((name, meta.get("summary", "")[:160].replace("|", "/"), caught, applies))
-    print(name, "applies" if applies else "DOES NOT APPLY", sorted(caught), flush=True)
+    return name, applies, caught
+
+
+dirs = [d for d in sorted(glob.glob("/verif/seeded/C*-*")) if not only or any(os.path.basename(d).startswith(o) for o in only)]
+with ThreadPoolExecutor(jobs) as ex:
+    for name, applies, caught in ex.map(one, dirs):
+        mp = os.path.join("/verif/seeded", name, "meta.json")
+        meta = json.load(open(mp))
+        meta.setdefault("verified", {})["caught_by"] = caught
+        meta["verified"]["patch_applies_to_current_repo"] = applies
+        json.dump(meta, open(mp, "w"), indent=1, ensure_ascii=False)
+        print(name, "applies" if applies else "DOES NOT APPLY", sorted(caught), flush=True)
+rows = []
+for d in sorted(glob.glob("/verif/seeded/C*-*")):
+    meta = json.load(open(os.path.join(d, "meta.json")))
+    v = meta.get("verified", {})
+    rows.append((os.path.basename(d), meta.get("summary", "")[:160].replace("|", "/").replace("\n", " "), v.get("caught_by", {}),
+                 v.get("patch_applies_to_current_repo", True)))
 with open("/verif/seeded/SUMMARY.md", "w") as fh:
-    fh.write("| seed | change | reported by | first report |\n|---|---|---|---|\n")
+    n = sum(1 for r in rows if r[2] and "ERROR" not in r[2])
+    fh.write("%d of %d seeded breaking changes are reported.\n\n| seed | change | reported by | first report |\n|---|---|---|---|\n" % (n, len(rows)))
     for name, summ, caught, applies in rows:
         first = ""
         for k in sorted(caught):
@@ -45,3 +61,5 @@ with open("/verif/seeded/SUMMARY.md", "w") as fh:
                 first = caught[k][0].replace("violated: ", "").replace("|", "/")[:150]
                 break
         fh.write("| %s | %s | %s | %s |\n" % (name, summ, ", ".join(sorted(caught)) or ("**none**" if applies else "patch no longer applies"), first))
+missed = [r[0] for r in rows if not r[2] and r[3]]
+print("reported %d / %d; missed: %s" % (sum(1 for r in rows if r[2]), len(rows), missed))
